@@ -125,6 +125,12 @@ func addVocab(m map[string]Intrinsic) {
 		return nil
 	}
 	m["vocab.vTrace"] = func(vm *VM, fn *ssa.Function, args []Value) Value {
+		if iv, ok := args[0].(IfaceV); ok {
+			if sv, isStr := iv.V.(StrV); isStr && !sv.Sym && !sv.Opaque() {
+				vm.trace("%s", sv.C)
+				return nil
+			}
+		}
 		vm.trace("%s", showValue(args[0]))
 		return nil
 	}
